@@ -100,6 +100,8 @@ struct Case {
     std::string ty; // type tag for from_chars / to_integer, "-" otherwise
     int base{10};
     std::string s; // raw bytes
+    int shape{0}; // set by run_case from the suffix of fn: 0 = every argument explicit; 1 = ".d" from_chars(first,last,value) / to_integer<T>(str) /
+                  // ".p" sto*(str, &pos): base (and options) defaulted; 2 = ".s" sto*(str): pos and base defaulted
     bool null{false}; // the input is the valid empty range [nullptr, nullptr) (only for the pointer-pair / string_view functions; s is empty)
 };
 auto pct(std::string const& s) -> std::string
@@ -252,8 +254,10 @@ auto chk_from_chars(Case const& k) -> std::string
     T const sentinel = static_cast<T>(0x5A5A5A5A5A5A5A5AULL);
     T ev             = sentinel;
     T sv             = sentinel;
-    auto const sr    = std::from_chars(static_cast<char const*>(b.p), static_cast<char const*>(b.p + b.n), sv, k.base);
-    auto const er    = etl::from_chars(static_cast<char const*>(b.p), static_cast<char const*>(b.p + b.n), ev, k.base);
+    auto const* const f = static_cast<char const*>(b.p);
+    auto const* const l = static_cast<char const*>(b.p + b.n);
+    auto const sr       = k.shape == 0 ? std::from_chars(f, l, sv, k.base) : std::from_chars(f, l, sv);
+    auto const er       = k.shape == 0 ? etl::from_chars(f, l, ev, k.base) : etl::from_chars(f, l, ev);
     int const sc     = cls_of(sr.ec);
     int const ec     = cls_of(er.ec);
     g_lastCls        = sc;
@@ -296,7 +300,7 @@ auto chk_to_integer(Case const& k) -> std::string
     g_lastCls     = sc;
     if (!OV && sc == Range) { return ""; } // outside the contract of check_overflow = false
     constexpr auto opts = etl::strings::to_integer_options{.skip_whitespace = WS, .check_overflow = OV};
-    auto const r        = etl::strings::to_integer<T, opts>(etl::string_view{b.p, b.n}, static_cast<T>(k.base));
+    auto const r        = (k.shape != 0 && WS && OV) ? etl::strings::to_integer<T>(etl::string_view{b.p, b.n}) : etl::strings::to_integer<T, opts>(etl::string_view{b.p, b.n}, static_cast<T>(k.base));
     int const ec        = r.error == etl::strings::to_integer_error::none ? Ok : (r.error == etl::strings::to_integer_error::invalid_input ? Invalid : (r.error == etl::strings::to_integer_error::overflow ? Range : 3));
     auto const so       = static_cast<long>(sr.ptr - b.p);
     char const* name    = k.fn.c_str();
@@ -411,7 +415,8 @@ auto chk_sto(Case const& k, EtlF etlf, StdF stdf) -> std::string
     R sv             = R{};
     int sc           = Ok;
     try {
-        sv = stdf(str, &spos, k.base);
+        sv = stdf(str, &spos, k.base, 0); // value, position and error class of the fully spelled call (std defines the defaults as base 10, pos nullptr)
+        if (k.shape != 0) { sv = stdf(str, &spos, k.base, k.shape); } // the std call of the same shape (spos is left alone by shape 2)
     } catch (std::invalid_argument const&) {
         sc = Invalid;
     } catch (std::out_of_range const&) {
@@ -425,20 +430,24 @@ auto chk_sto(Case const& k, EtlF etlf, StdF stdf) -> std::string
         return "";
     }
     etl::size_t epos = 12345;
-    R const ev       = etlf(etl::string_view{b.p, b.n}, &epos, k.base);
+    R const ev       = etlf(etl::string_view{b.p, b.n}, &epos, k.base, k.shape);
+    if (k.shape == 2) { epos = sc == Invalid ? 0 : spos; } // no position is reported by this shape
     if (sc == Invalid) {
         if (epos != 0) { return fmt("%s(%s, base %d): std throws invalid_argument (nothing to convert), etl reports %zu characters processed", k.fn.c_str(), vis(str).c_str(), k.base, static_cast<std::size_t>(epos)); }
         return "";
     }
     if (ev != sv || epos != spos) { return fmt("%s(%s, base %d): std returns %s, pos %zu; etl returns %s, pos %zu", k.fn.c_str(), vis(str).c_str(), k.base, vstr(sv).c_str(), spos, vstr(ev).c_str(), static_cast<std::size_t>(epos)); }
-    R const ev2 = etlf(etl::string_view{b.p, b.n}, nullptr, k.base);
+    if (k.shape == 2) { return ""; }
+    R const ev2 = etlf(etl::string_view{b.p, b.n}, nullptr, k.base, k.shape);
     if (ev2 != sv) { return fmt("%s(%s, nullptr, base %d): std returns %s, etl returns %s", k.fn.c_str(), vis(str).c_str(), k.base, vstr(sv).c_str(), vstr(ev2).c_str()); }
     return "";
 }
 
 // ---------------------------------------------------------------------------------------------- dispatch
-auto sub_of(std::string const& fn) -> char const*
+auto strip_shape(std::string const& fn) -> std::string { return fn.substr(0, fn.find('.')); }
+auto sub_of(std::string const& fnWithShape) -> char const*
 {
+    auto const fn = strip_shape(fnWithShape);
     if (fn == "from_chars") { return "from_chars"; }
     if (fn.rfind("to_integer", 0) == 0) { return "to_integer"; }
     if (fn.rfind("strto", 0) == 0) { return "strto"; }
@@ -457,7 +466,31 @@ auto run_typed(Case const& k) -> std::string
     return "unknown function in case: " + k.fn;
 }
 
-auto run_case(Case const& k) -> std::string
+auto run_case_explicit(Case const& k) -> std::string;
+// fn may carry a call-shape suffix (".d", ".p", ".s": arguments left to their defaults, only generated with base 10)
+auto run_case(Case const& given) -> std::string
+{
+    auto const dot = given.fn.find('.');
+    if (dot == std::string::npos) { return run_case_explicit(given); }
+    Case k         = given;
+    auto const sfx = given.fn.substr(dot);
+    k.fn           = given.fn.substr(0, dot);
+    bool const sto = k.fn.rfind("sto", 0) == 0;
+    if (sfx == ".d" && (k.fn == "from_chars" || k.fn == "to_integer_ws1_ov1")) {
+        k.shape = 1;
+    } else if (sfx == ".p" && sto) {
+        k.shape = 1;
+    } else if (sfx == ".s" && sto) {
+        k.shape = 2;
+    } else {
+        return "unknown call shape in case: " + given.fn;
+    }
+    if (k.base != 10) { return "a defaulted base means base 10: " + given.fn; }
+    auto d = run_case_explicit(k);
+    if (!d.empty()) { d += std::string(" [call shape ") + given.fn + ": " + (sfx == ".s" ? "pos and base" : (sfx == ".p" ? "base" : (k.fn == "from_chars" ? "base" : "base and options"))) + " left to the default]"; }
+    return d;
+}
+auto run_case_explicit(Case const& k) -> std::string
 {
     if (k.ty != "-") {
         if (k.base < 2 || k.base > 36) { return "base outside 2..36 in a from_chars/to_integer case"; }
@@ -475,16 +508,53 @@ auto run_case(Case const& k) -> std::string
     if (k.fn == "atoi") { return chk_ato<int>(k, [](char const* s) { return etl::atoi(s); }); }
     if (k.fn == "atol") { return chk_ato<long>(k, [](char const* s) { return etl::atol(s); }); }
     if (k.fn == "atoll") { return chk_ato<long long>(k, [](char const* s) { return etl::atoll(s); }); }
-    if (k.fn == "stoi") { return chk_sto<int>(k, [](etl::string_view s, etl::size_t* p, int b) { return etl::stoi(s, p, b); }, [](std::string const& s, std::size_t* p, int b) { return std::stoi(s, p, b); }); }
-    if (k.fn == "stol") { return chk_sto<long>(k, [](etl::string_view s, etl::size_t* p, int b) { return etl::stol(s, p, b); }, [](std::string const& s, std::size_t* p, int b) { return std::stol(s, p, b); }); }
-    if (k.fn == "stoll") { return chk_sto<long long>(k, [](etl::string_view s, etl::size_t* p, int b) { return etl::stoll(s, p, b); }, [](std::string const& s, std::size_t* p, int b) { return std::stoll(s, p, b); }); }
-    if (k.fn == "stoul") { return chk_sto<unsigned long>(k, [](etl::string_view s, etl::size_t* p, int b) { return etl::stoul(s, p, b); }, [](std::string const& s, std::size_t* p, int b) { return std::stoul(s, p, b); }); }
-    if (k.fn == "stoull") { return chk_sto<unsigned long long>(k, [](etl::string_view s, etl::size_t* p, int b) { return etl::stoull(s, p, b); }, [](std::string const& s, std::size_t* p, int b) { return std::stoull(s, p, b); }); }
+    if (k.fn == "stoi") {
+        return chk_sto<int>(
+            k, [](etl::string_view s, etl::size_t* p, int b, int shape) { return shape == 2 ? etl::stoi(s) : (shape == 1 ? etl::stoi(s, p) : etl::stoi(s, p, b)); },
+            [](std::string const& s, std::size_t* p, int b, int shape) { return shape == 2 ? std::stoi(s) : (shape == 1 ? std::stoi(s, p) : std::stoi(s, p, b)); });
+    }
+    if (k.fn == "stol") {
+        return chk_sto<long>(
+            k, [](etl::string_view s, etl::size_t* p, int b, int shape) { return shape == 2 ? etl::stol(s) : (shape == 1 ? etl::stol(s, p) : etl::stol(s, p, b)); },
+            [](std::string const& s, std::size_t* p, int b, int shape) { return shape == 2 ? std::stol(s) : (shape == 1 ? std::stol(s, p) : std::stol(s, p, b)); });
+    }
+    if (k.fn == "stoll") {
+        return chk_sto<long long>(
+            k, [](etl::string_view s, etl::size_t* p, int b, int shape) { return shape == 2 ? etl::stoll(s) : (shape == 1 ? etl::stoll(s, p) : etl::stoll(s, p, b)); },
+            [](std::string const& s, std::size_t* p, int b, int shape) { return shape == 2 ? std::stoll(s) : (shape == 1 ? std::stoll(s, p) : std::stoll(s, p, b)); });
+    }
+    if (k.fn == "stoul") {
+        return chk_sto<unsigned long>(
+            k, [](etl::string_view s, etl::size_t* p, int b, int shape) { return shape == 2 ? etl::stoul(s) : (shape == 1 ? etl::stoul(s, p) : etl::stoul(s, p, b)); },
+            [](std::string const& s, std::size_t* p, int b, int shape) { return shape == 2 ? std::stoul(s) : (shape == 1 ? std::stoul(s, p) : std::stoul(s, p, b)); });
+    }
+    if (k.fn == "stoull") {
+        return chk_sto<unsigned long long>(
+            k, [](etl::string_view s, etl::size_t* p, int b, int shape) { return shape == 2 ? etl::stoull(s) : (shape == 1 ? etl::stoull(s, p) : etl::stoull(s, p, b)); },
+            [](std::string const& s, std::size_t* p, int b, int shape) { return shape == 2 ? std::stoull(s) : (shape == 1 ? std::stoull(s, p) : std::stoull(s, p, b)); });
+    }
     return "unknown function in case: " + k.fn;
 }
 
 // executes one case inside the run; returns false after a mismatch (memory-only mode keeps going)
+void exec1(Case const& k, Meta const& m, bool enumerated);
+// every base-10 case is also run through the call shapes that leave base / pos / options to their defaults
 void exec(Case const& k, Meta const& m, bool enumerated)
+{
+    exec1(k, m, enumerated);
+    if (k.base != 10) { return; }
+    Case d = k;
+    if (k.fn == "from_chars" || k.fn == "to_integer_ws1_ov1") {
+        d.fn = k.fn + ".d";
+        exec1(d, m, enumerated);
+    } else if (k.fn.rfind("sto", 0) == 0) {
+        d.fn = k.fn + ".p";
+        exec1(d, m, enumerated);
+        d.fn = k.fn + ".s";
+        exec1(d, m, enumerated);
+    }
+}
+void exec1(Case const& k, Meta const& m, bool enumerated)
 {
     char const* sub = sub_of(k.fn);
     vf::Flight<Case> fl(sub, k);
@@ -547,8 +617,9 @@ auto render_signed(i128 v, int base, int casing) -> std::string
 // ---------------------------------------------------------------------------------------------- grammar
 char const* const kFamilies[] = {"from_chars", "to_integer_ws1_ov1", "to_integer_ws0_ov1", "to_integer_ws1_ov0", "to_integer_ws0_ov0", "strtol", "strtoll", "strtoul", "strtoull", "atoi", "atol", "atoll", "stoi", "stol", "stoll", "stoul",
     "stoull"};
-auto target_of(std::string const& fn) -> char const*
+auto target_of(std::string const& fnWithShape) -> char const*
 {
+    auto const fn = fnWithShape.substr(0, fnWithShape.find('.'));
     if (fn == "strtol" || fn == "atol" || fn == "stol") { return "l"; }
     if (fn == "strtoll" || fn == "atoll" || fn == "stoll") { return "ll"; }
     if (fn == "strtoul" || fn == "stoul") { return "ul"; }
@@ -863,6 +934,7 @@ void long_inputs(vf::Ctx& c)
     auto span = [&](int lo, int hi) {
         for (int i = lo; i <= hi; ++i) { lens.push_back(i); }
     };
+    span(2, 40); // short totals: a few leading zeros in front of every body (up to 25 digits and beyond)
     span(60, 70);
     span(120, 135);
     span(250, 330);
